@@ -18,6 +18,7 @@ func init() {
 	sym.Register("c07.HVFS", HVFS)
 	sym.Register("c07.HFile", HFile)
 	sym.Register("c07.HIdm", HIdm)
+	sym.Register("c07.HDirHist", HDirHist)
 }
 
 // operand universe: aliasing, boundary and malformed paths
@@ -300,6 +301,57 @@ func HFile(kind, st, m, pre int) {
 		_, _ = f.Read(b)
 		_, _ = v.Stat("/w/b")
 		_, _ = v.ReadFile("/w/b")
+		_, _ = v.ReadDir("/w")
+		_ = f.Close()
+	})
+	sym.Assert(!res.Panicked, "C07|"+label+"|then-probe|panic|"+res.Class+"|"+res.Site)
+}
+
+// HDirHist: a history of k steps on one directory handle of /w: each step is
+// ReadDir(n) or Readdirnames(n) with a symbolic count, or a namespace call that
+// adds or removes an entry of the directory while the handle is open.
+func HDirHist(kind, k int) {
+	v := newFS(kind)
+	f, err := v.OpenFile("/w", 0, 0)
+	if err != nil {
+		return
+	}
+	label := hx.KindName(kind) + "|dir-handle-history"
+	sym.Reach("dir-history")
+	added := 0
+	for i := 0; i < k; i++ {
+		step := ""
+		res := sym.Outcome(func() {
+			switch sym.Choose("step", 4) {
+			case 0:
+				step = "ReadDir"
+				n := sym.Int("n")
+				sym.Assume(n >= -1 && n <= 3)
+				_, _ = f.ReadDir(n)
+			case 1:
+				step = "Readdirnames"
+				n := sym.Int("n")
+				sym.Assume(n >= -1 && n <= 3)
+				_, _ = f.Readdirnames(n)
+			case 2:
+				step = "add-entry"
+				added++
+				_ = v.WriteFile("/w/n"+hx.Itoa(added), nil, 0o644)
+				_ = v.Mkdir("/w/d"+hx.Itoa(added), 0o755)
+			case 3:
+				step = "remove-entry"
+				_ = v.Remove("/w/b")
+				_ = v.RemoveAll("/w/a")
+			}
+		})
+		sym.Label(label + "|step-" + hx.Itoa(i+1) + "-" + step)
+		sym.Assert(!res.Panicked, "C07|"+label+"|"+step+"|panic|"+res.Class+"|"+res.Site)
+		if res.Panicked {
+			return
+		}
+	}
+	res := sym.Outcome(func() {
+		_, _ = f.Stat()
 		_, _ = v.ReadDir("/w")
 		_ = f.Close()
 	})
